@@ -306,7 +306,9 @@ pub fn observe(ctx: &Ctx, c: &Case) -> Obs {
         _ => {}
       }
     } else {
-      sb.mkdir(root_rel);
+      if !c.label.contains("content-root-missing") {
+        sb.mkdir(root_rel);
+      }
       for (k, n) in tree {
         if let Node::ParentIsFile = n {
           let first = k.split('/').next().unwrap();
@@ -371,10 +373,41 @@ pub fn observe(ctx: &Ctx, c: &Case) -> Obs {
   if quiet {
     cmd.args.insert(0, "--quiet".into());
   }
+  // another fifth of the entries that try to leave the root are judged with the live progress display on (`--terminal
+  // --color always`): what is drawn changes, what is refused does not
+  let live = !quiet && c.label.starts_with("escape-kind") && fnv_str(&format!("{}{}", c.label, hex(&c.pieces))) % 5 == 1;
+  if live {
+    for (i, a) in ["--terminal", "--color", "always"].iter().enumerate() {
+      cmd.args.insert(i, a.to_string());
+    }
+  }
   cmd = cmd.timeout_s(120);
   let out = cmd.run();
   let after = snapshot(&sb.root);
-  Obs { code: out.code, signal: out.signal, stderr: out.stderr_s(), changed: before != after, quiet }
+  let mut stderr = out.stderr_s();
+  if live {
+    // (colour and cursor sequences taken out again, carriage returns read as line ends)
+    let mut plain = String::new();
+    let mut it = stderr.chars().peekable();
+    while let Some(ch) = it.next() {
+      if ch == '\u{1b}' {
+        if it.peek() == Some(&'[') {
+          it.next();
+          while let Some(x) = it.next() {
+            if x.is_ascii_alphabetic() {
+              break;
+            }
+          }
+        }
+      } else if ch == '\r' {
+        plain.push('\n');
+      } else {
+        plain.push(ch);
+      }
+    }
+    stderr = plain;
+  }
+  Obs { code: out.code, signal: out.signal, stderr, changed: before != after, quiet }
 }
 
 fn model_line(c: &Case) -> String {
@@ -780,6 +813,15 @@ pub fn gen_c13(rng: &mut Rng) -> Case {
       target = root_rel[..root_rel.len() - 1].iter().map(|s| s.to_string()).chain(prev[1..].iter().cloned()).collect();
       kind_note = "-echoing-the-entry-before-it";
     }
+  }
+  // an absolute entry may be the only entry of the torrent, and the content root may not exist (yet): nothing of the
+  // root is ever looked at then, which is no reason to look elsewhere
+  let lone = path.iter().any(|x| x == "<ABS>") && rng.chance(1, 3);
+  if lone {
+    c.files.clear();
+    c.tree.clear();
+    pos = 0;
+    kind_note = "-the-only-entry-content-root-missing";
   }
   c.files.insert(pos, TFile { path, len: secret.len() as u64, md5: if rng.chance(1, 3) { Some(md5::compute(&secret).0.to_vec()) } else { None } });
   c.outside.push((target.join("/"), secret.clone()));
@@ -1408,9 +1450,29 @@ fn history(ctx: &Ctx, seed: u64) -> Report {
         a.push("--output".into());
         a.push("in/again.torrent".into());
         let before = snapshot(&sb.path(&format!("in/{dname}")));
-        let _ = Cmd::args_owned(&ctx.imdl, a).cwd(&sb.root).run();
+        // what is in the way: a longer file (an earlier, larger torrent, say) that --force has to replace entirely; or
+        // nothing, and the torrent is taken from standard output (`--output - > in/again.torrent`)
+        let via_stdout = rng.chance(1, 3);
+        let rec = if via_stdout {
+          let _ = std::fs::remove_file(sb.path("in/again.torrent"));
+          let k = a.len();
+          a[k - 1] = "-".into();
+          Cmd::args_owned(&ctx.imdl, a).cwd(&sb.root).stdout_to(&sb.path("in/again.torrent")).run()
+        } else {
+          let mut old = torrent.clone();
+          old.extend(std::iter::repeat(b'x').take(20_000));
+          sb.write("in/again.torrent", &old);
+          Cmd::args_owned(&ctx.imdl, a).cwd(&sb.root).run()
+        };
+        r.hit(if via_stdout { "history:re-create-through-standard-output" } else { "history:re-create-over-a-longer-file" });
         if snapshot(&sb.path(&format!("in/{dname}"))) != before {
           r.fail("property", "create-modified-content", json!({"history_seed": seed, "trace": trace}), "re-create changed the content".into());
+        } else if rec.ok() {
+          // a torrent just created verifies against the input it was created from, as it is now
+          let v = Cmd::args_owned(&ctx.imdl, vec!["torrent".into(), "verify".into(), "--input".into(), "in/again.torrent".into(), "--content".into(), format!("in/{dname}")]).cwd(&sb.root).run();
+          if !v.ok() {
+            r.fail("property", "verify-after-create", json!({"history_seed": seed, "trace": trace, "re_created_through_standard_output": via_stdout}), format!("re-created torrent does not verify against the input it was just created from: exit {:?}: {}", v.code, v.stderr_s().lines().last().unwrap_or("")));
+          }
         }
       }
       Op::Verify => {
